@@ -304,6 +304,18 @@ def breakerOnSuccess {σ : Type} (ops : AdmitOps σ) (s : σ) (result : PR) : σ
 def breakerOnFailure {σ : Type} (ops : AdmitOps σ) (s : σ) (result : PR) : PR × σ :=
   (result, ops.recordFailure (ops.baseOnFailure s result) result)
 
+/-- the breaker's own `recordResult` / `recordSuccess` / `recordFailure` (circuitbreaker.go): classify, then record into the
+current state's statistics, then check the thresholds (`viaExec`: whether an execution is handed to the check — only then a
+delay function is consulted when the breaker opens) -/
+structure BrkOps (σ : Type) where
+  statsRecord : σ → Bool → σ          -- `cb.state.recordSuccess()` / `recordFailure()`
+  check : σ → Bool → σ                -- `cb.state.checkThresholdAndReleasePermit(exec)`
+
+def brkRecordSuccess {σ : Type} (ops : BrkOps σ) (s : σ) : σ := ops.check (ops.statsRecord s true) false
+def brkRecordFailure {σ : Type} (ops : BrkOps σ) (s : σ) (viaExec : Bool) : σ := ops.check (ops.statsRecord s false) viaExec
+def brkRecordResult {σ : Type} (ops : BrkOps σ) (s : σ) (isFailure : Bool) : σ :=
+  if isFailure then brkRecordFailure ops s false else brkRecordSuccess ops s
+
 structure LimitOps (σ : Type) where
   acquireV : σ → Option Err       -- `acquirePermitsWithMaxWait`: nil, `ErrExceeded`, or what the cancelled wait reports
   acquireS : σ → σ
